@@ -20,7 +20,7 @@ Definition E_wit : env :=
 Definition r_win : rule :=
   {| r_bad := None; r_mods := []; r_product := 1;
      r_dets := [(lit "sel", [{| di_field := lit "fieldC"; di_text := lit "1"; di_kind := VNum |}])];
-     r_conds := [lit "sel"]; r_fields := [] |}.
+     r_conds := [lit "sel"]; r_fields := []; r_attrs := [] |}.
 
 (* D18: one user pipeline object given to two backends; init A, init B, then A.convert_rule:
    the state written by the items lands in B's pipeline object *)
